@@ -65,8 +65,13 @@ def impl_fields(pre, suf, fields):
                 bw.write_bytes(f[2], f[1])
     except Exception as e:
         return 'werr %d' % lib.err_code(e), None
-    written = bw.bit_stream.bin
     wpos = bw.get_pos()
+    written = bw.bit_stream.bin
+    if wpos % 8 == 0:
+        # what the writer hands out is to_bytes() (defined for whole octets): it must be exactly these bits
+        out_bits = ''.join('{:08b}'.format(x) for x in bw.to_bytes())
+        if out_bits != written:
+            return 'w %s to_bytes-differs %s' % (bits_str(written), bits_str(out_bits)), None
     total = written + suf
     br = get_bit_reader(to_bytes(total))
     vals = []
@@ -180,10 +185,20 @@ def impl_setuint(v, w, pos, bits):
     bw = get_bit_writer()
     if bits:
         bw.write_bin(bits)
+    n = bw.get_pos()
+    if n % 8 == 0 and (v + pos // 8) % 3 != 0:
+        bw.to_bytes()             # the octets taken once BEFORE the overwrite (as for a length field patched afterwards)
     try:
         bw.set_uint(v, w, pos)
     except Exception as e:
         return 'err %d' % lib.err_code(e)
+    if bw.get_pos() != n:
+        return 'ok-but-length-changed ' + bits_str(bw.bit_stream.bin)
+    if n % 8 == 0:
+        # the overwrite as seen through to_bytes() (defined for whole octets)
+        out_bits = ''.join('{:08b}'.format(x) for x in bw.to_bytes())
+        if out_bits != bw.bit_stream.bin:
+            return 'ok-but-to_bytes-differs ' + bits_str(out_bits)
     return 'ok ' + bits_str(bw.bit_stream.bin)
 
 
